@@ -334,8 +334,8 @@ example : tapeState.st = tapeStateG.st ∧ tapeState.pop = tapeStateG.pop ∧
 
 example : (generation tapeEv (simpleStep tapeOps ⟨[1, 0], [false], [true, true]⟩) 1 5
       tapeStateG).map observe =
-    some ⟨7, [2, 3], [⟨[5], some [5]⟩, ⟨[6], some [6]⟩], 4, [(0, 1), (1, 2)], [0, 1, 2, 3],
-      [(0, ⟨[1, 2, 3], some [6]⟩), (1, ⟨[4, 5, 6], some [15]⟩), (2, ⟨[5], some [5]⟩), (3, ⟨[6], some [6]⟩)],
+    some ⟨7, [2, 3], [⟨[5], some [5], none⟩, ⟨[6], some [6], none⟩], 4, [(0, 1), (1, 2)], [0, 1, 2, 3],
+      [(0, ⟨[1, 2, 3], some [6], none⟩), (1, ⟨[4, 5, 6], some [15], none⟩), (2, ⟨[5], some [5], none⟩), (3, ⟨[6], some [6], none⟩)],
       [(0, 1), (1, 2), (1, 3)]⟩ := by decide
 
 /-! #### The loop is a `Run` -/
@@ -506,18 +506,18 @@ in generation 3 gets the genome `[0]` instead of `[7]` (and is shown to the hall
 theorem c03_resume_needs_tape :
     encNoTape (2, 7, tapeState) ≠ (2, 7, tapeState) ∧
     (eaSimple tapeOps tapeEv tapeDecs 5 tapeState).map observe =
-      some ⟨8, [6, 7], [⟨[7], some [7]⟩, ⟨[5], some [5]⟩], 8, [(0, 1), (1, 2), (2, 0), (3, 1)],
+      some ⟨8, [6, 7], [⟨[7], some [7], none⟩, ⟨[5], some [5], none⟩], 8, [(0, 1), (1, 2), (2, 0), (3, 1)],
         [0, 1, 2, 3, 4, 5, 6, 7],
-        [(0, ⟨[1, 2, 3], some [6]⟩), (1, ⟨[4, 5, 6], some [15]⟩), (2, ⟨[5], some [5]⟩), (3, ⟨[6], some [6]⟩),
-         (4, ⟨[5], some [5]⟩), (5, ⟨[5], some [5]⟩), (6, ⟨[7], some [7]⟩), (7, ⟨[5], some [5]⟩)],
+        [(0, ⟨[1, 2, 3], some [6], none⟩), (1, ⟨[4, 5, 6], some [15], none⟩), (2, ⟨[5], some [5], none⟩), (3, ⟨[6], some [6], none⟩),
+         (4, ⟨[5], some [5], none⟩), (5, ⟨[5], some [5], none⟩), (6, ⟨[7], some [7], none⟩), (7, ⟨[5], some [5], none⟩)],
         [(0, 1), (1, 2), (1, 3), (3, 6)]⟩ ∧
     ((eaSimple tapeOps tapeEv (tapeDecs.take 1) 5 tapeState).bind (fun r =>
       (some (encNoTape (1 + min 1 tapeDecs.length, r.1, r.2))).bind (fun m =>
         runGens tapeEv ((tapeDecs.drop 1).map (simpleStep tapeOps)) m.1 m.2.1 m.2.2))).map observe =
-      some ⟨1, [6, 7], [⟨[0], some [0]⟩, ⟨[5], some [5]⟩], 8, [(0, 1), (1, 2), (2, 0), (3, 1)],
+      some ⟨1, [6, 7], [⟨[0], some [0], none⟩, ⟨[5], some [5], none⟩], 8, [(0, 1), (1, 2), (2, 0), (3, 1)],
         [0, 1, 2, 3, 4, 5, 6, 7],
-        [(0, ⟨[1, 2, 3], some [6]⟩), (1, ⟨[4, 5, 6], some [15]⟩), (2, ⟨[5], some [5]⟩), (3, ⟨[6], some [6]⟩),
-         (4, ⟨[5], some [5]⟩), (5, ⟨[5], some [5]⟩), (6, ⟨[0], some [0]⟩), (7, ⟨[5], some [5]⟩)],
+        [(0, ⟨[1, 2, 3], some [6], none⟩), (1, ⟨[4, 5, 6], some [15], none⟩), (2, ⟨[5], some [5], none⟩), (3, ⟨[6], some [6], none⟩),
+         (4, ⟨[5], some [5], none⟩), (5, ⟨[5], some [5], none⟩), (6, ⟨[0], some [0], none⟩), (7, ⟨[5], some [5], none⟩)],
         [(0, 1), (1, 2), (1, 3), (3, 6)]⟩ := by
   refine ⟨fun e => ?_, by decide +kernel, by decide +kernel⟩
   have : (0 : Nat) = 7 := congrArg (fun m : MState Nat => m.2.1) e
@@ -536,8 +536,8 @@ theorem c03_schedule_independent (ev : List Int → List Int) (h : Heap) (inv : 
 example : [2, 0, 1].Perm (List.range [1, 0, 1].length) := by decide
 example : ((pmap (fun o => tapeEv (tapeHeap o).genome) [1, 0, 1] [2, 0, 1]).map
       (fun fits => [0, 1].map (assignZip tapeHeap [1, 0, 1] fits))) =
-    some [⟨[1, 2, 3], some [6]⟩, ⟨[4, 5, 6], some [15]⟩] ∧
-    [0, 1].map (assignFits tapeEv tapeHeap [1, 0, 1]) = [⟨[1, 2, 3], some [6]⟩, ⟨[4, 5, 6], some [15]⟩] := by
+    some [⟨[1, 2, 3], some [6], none⟩, ⟨[4, 5, 6], some [15], none⟩] ∧
+    [0, 1].map (assignFits tapeEv tapeHeap [1, 0, 1]) = [⟨[1, 2, 3], some [6], none⟩, ⟨[4, 5, 6], some [15], none⟩] := by
   decide
 
 /-- `evalPhaseWith` with the builtin `map` is `Loops.evalPhase`. -/
@@ -572,13 +572,13 @@ example : ∀ g n, (flipSched g n).Perm (List.range n) := by
   · exact List.reverse_perm _
 
 example : [1, 0].Perm (List.range (if false then [0, 1, 2] else invalidOf
-    (fun o => if o = 0 then ⟨[1], some [1]⟩ else ⟨[2], none⟩) [0, 1, 2]).length) := by decide
+    (fun o => if o = 0 then ⟨[1], some [1], none⟩ else ⟨[2], none, none⟩) [0, 1, 2]).length) := by decide
 
 /-- Not decorative: a map that hands the results back in completion order gives other fitnesses. -/
 example : [0, 1].map (evalPhaseWith (fun f xs => (xs.map f).reverse) tapeEv true 7 tapeState [1, 0]).1.st.heap =
-      [⟨[1, 2, 3], some [15]⟩, ⟨[4, 5, 6], some [6]⟩] ∧
+      [⟨[1, 2, 3], some [15], none⟩, ⟨[4, 5, 6], some [6], none⟩] ∧
     [0, 1].map (evalPhase tapeEv true 7 tapeState [1, 0]).1.st.heap =
-      [⟨[1, 2, 3], some [6]⟩, ⟨[4, 5, 6], some [15]⟩] := by decide
+      [⟨[1, 2, 3], some [6], none⟩, ⟨[4, 5, 6], some [15], none⟩] := by decide
 
 /-! #### … lifted to the generation and to the runs -/
 
